@@ -23,7 +23,7 @@ META = {
     'design_ref': 'DESIGN.md section 6/C08',
 }
 
-NAMES = ['C08_', 'ReadFwd', 'ReadRev', 'TsLookup', 'C01_Ordered', 'HW', 'step']
+NAMES = ['C08_', 'ReadFwd', 'ReadRev', 'TsLookup', 'CleanError', 'C01_Ordered', 'HW', 'step']
 
 
 def nontrivial(b):
